@@ -52,7 +52,7 @@ func (eng) Cases(seed uint64, tier string) []core.CaseDesc {
 	for i := 0; i < nr; i++ {
 		cs = append(cs, core.CaseDesc{ID: fmt.Sprintf("race/%05d", i), Kind: "race", Seed: seed*2000003 + uint64(i)})
 	}
-	for i := 0; i < 11; i++ {
+	for i := 0; i < 14; i++ {
 		cs = append(cs, core.CaseDesc{ID: fmt.Sprintf("directed/%02d", i), Kind: "directed", Seed: uint64(i)})
 	}
 	return cs
